@@ -19,7 +19,9 @@ const TAME: &[&str] = &["", "a", "gold", "active", "x y", "Gold", "über", "abc 
 const META: &[&str] = &["a;b", "x && y", "p || q", "}", "{", "a } b {", "now then go", "// not a comment", "(", ")", "f(x) > 1", "a = b", "a, b",
                         "rule X {", "when", "salience 9", "!", "a == b", "1 + 2", "100%", "it's", "no-loop"];
 const DESCR: &[&str] = &["desc {x", "a } b", "Age verification rule", "gives a discount", "salience 5 is not meant here", "see no-loop", "uses agenda-group and lock-on-active"];
-const COMMENTS: &[&str] = &["// check", "// TODO: tune threshold", "//", "// a && b || c", "// then", "// \"quoted\"", "// x; y = 1", "// when ("];
+const COMMENTS: &[&str] = &["// check", "// TODO: tune threshold", "//", "// a && b || c", "// then", "// \"quoted\"", "// x; y = 1", "// when (",
+    // the documented block comments (docs/core-features/GRL_SYNTAX.md, section Comments), on one line and over several lines
+    "/* note */", "/* x; y = 1 */", "/* } then { */", "/*\n   Multi-line\n   comment\n*/", "/*\n * Apply gold tier discount\n * with special pricing\n */", "/* \"quoted */"];
 /// comments that the regular-expression front end is known to trip over (known findings): a closing brace, a rule header
 const BAD_COMMENTS: &[&str] = &["// }", "// rule \"Ghost\" { when A.b == 1 then A.c = 2; }"];
 
